@@ -154,6 +154,33 @@ impl Probe {
         }
     }
 
+    /// After `reset()`, does a lookup see a replacement that kept the file's
+    /// last-modified time (`cp -p`, `rsync -t`, a rewrite within the file
+    /// system's timestamp granularity)? The property promises a re-read of a
+    /// changed file after a reset; revalidation by mtime alone cannot tell.
+    /// (After a mere time-to-live expiry the pinned tree cannot tell either:
+    /// that is assumption A1 and is not probed.)
+    fn reset_sees_same_mtime_replacement(&mut self) -> Result<bool, String> {
+        self.n += 1;
+        let dir = self.root.join(format!("r{}", self.n));
+        let _ = std::fs::remove_dir_all(&dir);
+        let path = self.write(&dir, 5, false, 1_000_000)?;
+        let db = self.open(&path)?;
+        if Self::offset_of(&db, "Cal/A") != Some(5) {
+            return Err("calibration: first lookup of Cal/A failed".into());
+        }
+        self.write(&dir, 9, false, 1_000_000)?;
+        db.reset();
+        let got = Self::offset_of(&db, "cal/a");
+        drop(db);
+        let _ = std::fs::remove_dir_all(&dir);
+        match got {
+            Some(9) => Ok(true),
+            Some(5) => Ok(false),
+            other => Err(format!("calibration: lookup after reset returned {other:?}")),
+        }
+    }
+
     /// Does a lookup `d` nanoseconds after the name index was built find a
     /// zone created since?
     fn name_found_after(&mut self, d: u64) -> Result<bool, String> {
@@ -198,6 +225,9 @@ pub enum Outcome {
     Measured(Measured),
     /// Entries do not expire: a violation in its own right.
     NeverExpires(String),
+    /// `reset()` does not make the next lookup re-read a changed file: a
+    /// violation in its own right.
+    StaleAfterReset(String),
     /// The probes themselves misbehaved (a lookup of a file that is on disk
     /// failed, jiff panicked or deadlocked, ...). That is for the simulation
     /// proper to find, minimise and report; it runs with jiff's documented
@@ -223,20 +253,26 @@ pub fn measure(backend: Backend, root: &Path) -> Outcome {
             Some(_) => smallest(|d| p.name_found_after(d))?,
             None => Some(1),
         };
-        Ok::<_, String>((z, n))
+        let fresh = p.reset_sees_same_mtime_replacement()?;
+        Ok::<_, String>((z, n, fresh))
     }));
     sim::with_rt(|rt| {
         rt.active = false;
         rt.abort = None;
     });
     let _ = std::fs::remove_dir_all(root);
-    let (z, n) = match r {
+    let (z, n, fresh_after_reset) = match r {
         Ok(Ok(v)) => v,
         Ok(Err(e)) => return Outcome::Inconclusive(format!("{name}: {e}")),
         Err(_) => {
             return Outcome::Inconclusive(format!("{name}: jiff panicked or deadlocked during the measurement"))
         }
     };
+    if !fresh_after_reset {
+        return Outcome::StaleAfterReset(format!(
+            "{name}: after reset(), a lookup still returns the zone cached before the file was replaced (replacement kept the file's last-modified time)"
+        ));
+    }
     let Some(z) = z else {
         return Outcome::NeverExpires(format!(
             "{name}: a replaced zone file is still not re-read ten years (simulated) after it was cached"
@@ -269,7 +305,7 @@ pub fn calibrate(root: &Path) -> Result<Calibration, String> {
                 std::env::set_var(env_name(b), m.ttl_ns.to_string());
                 out.measured.push(m);
             }
-            Outcome::NeverExpires(detail) => return Err(detail),
+            Outcome::NeverExpires(detail) | Outcome::StaleAfterReset(detail) => return Err(detail),
             Outcome::Inconclusive(why) => {
                 cell(b).store(DEFAULT_TTL_NS, Ordering::Relaxed);
                 std::env::set_var(env_name(b), DEFAULT_TTL_NS.to_string());
